@@ -321,7 +321,7 @@ class Ctx:
                 break
         return results
 
-    def run_cases(self, exe, cases, env=None, timeout=900, nproc=None, prefix_cmd=()):
+    def run_cases(self, exe, cases, env=None, timeout=240, nproc=None, prefix_cmd=()):
         if not cases:
             return []
         nproc = nproc or NPROC
@@ -346,7 +346,7 @@ class Ctx:
 
     # ------------------------------------------------------------------ correspondence + oracle
     def correspond(self, name, exe, cases, oracle=None, nontrivial=None, env=None, compare=None,
-                   timeout=900, model_cases=None, keep_samples=3):
+                   timeout=240, model_cases=None, keep_samples=3):
         """cases: list of cases, each a list of protocol lines.  `oracle(case, impl_out)` returns
         None or a description of how the PROPERTY is violated by the implementation's output.
         `nontrivial(case)` decides what counts for distinct_nontrivial.  `compare(impl, model)`
@@ -368,7 +368,7 @@ class Ctx:
                 if a[0] == "skipped":
                     continue
                 # sanitizer abort / crash of the implementation: a result, memory-safety witness
-                what = self._san_summary(a[2]) or ("exit status %s" % a[3])
+                what = self._san_summary(a[2]) or ("did not terminate (timeout)" if a[3] == -999 else "exit status %s" % a[3])
                 self.add_witness(name, c, a, b, "implementation aborted: " + what)
                 continue
             verdict = oracle(c, a) if oracle else None
